@@ -408,4 +408,65 @@ theorem hostSigGate_rejects_trailing (fmt blob : Bytes) (x : UInt8) (algo : Byte
 
 example : hostSigGate (sshString [115] ++ sshString [1, 2]) [115] true = true := by decide
 
+/-- host certificates: the gate compares the signature format with the *underlying* algorithm of the negotiated
+    certificate algorithm, and needs the certified key's verification over H -/
+theorem hostSigGateFor_sound (sig : Bytes) (algo : String) (v : Bool) (h : hostSigGateFor sig algo v = true) :
+    sigFormat sig = some (underlyingAlgo algo).toUTF8.toList ∧ v = true :=
+  hostSigGate_sound sig _ v h
+
+theorem underlyingAlgo_cert_examples :
+    underlyingAlgo "ssh-ed25519-cert-v01@openssh.com" = "ssh-ed25519" ∧
+    underlyingAlgo "rsa-sha2-512-cert-v01@openssh.com" = "rsa-sha2-512" ∧
+    underlyingAlgo "ecdsa-sha2-nistp256-cert-v01@openssh.com" = "ecdsa-sha2-nistp256" ∧
+    underlyingAlgo "ssh-ed25519" = "ssh-ed25519" ∧ underlyingAlgo "rsa-sha2-256" = "rsa-sha2-256" := by
+  decide
+
+/-! ## group exchange, client side -/
+
+theorem bitLen_ge (n k : Nat) (hk : 0 < k) : k ≤ bitLen n ↔ 2 ^ (k - 1) ≤ n := by
+  unfold bitLen
+  by_cases h : n = 0
+  · subst h
+    have := Nat.two_pow_pos (k - 1)
+    simp only [if_true]
+    omega
+  · simp only [h, if_false]
+    rw [← Nat.le_log2 h]
+    omega
+
+theorem bitLen_le (n k : Nat) : bitLen n ≤ k ↔ n < 2 ^ k := by
+  unfold bitLen
+  by_cases h : n = 0
+  · subst h; have := Nat.two_pow_pos k; simp only [if_true]; omega
+  · simp only [h, if_false]
+    rw [← Nat.log2_lt h]
+    omega
+
+/-- **gex client window**: `dhGEXSHA.Client` accepts the server's group exactly when
+    2^2047 ≤ |p| < 2^8192 (bit length within the [min, max] = [2048, 8192] of its own request) and 1 < g < p − 1 -/
+theorem gexGroupOK_iff (P G : Int) :
+    gexGroupOK P G = true ↔ (2 ^ 2047 ≤ P.natAbs ∧ P.natAbs < 2 ^ 8192 ∧ 1 < G ∧ G < P - 1) := by
+  unfold gexGroupOK
+  simp only [Bool.and_eq_true, decide_eq_true_eq]
+  rw [bitLen_ge _ 2048 (by decide), bitLen_le]
+  constructor
+  · rintro ⟨⟨⟨a, b⟩, c⟩, d⟩; exact ⟨a, b, c, d⟩
+  · rintro ⟨a, b, c, d⟩; exact ⟨⟨⟨a, b⟩, c⟩, d⟩
+
+/-- a group the client accepts has a positive modulus (a negative p cannot satisfy 1 < g < p − 1) -/
+theorem gexGroupOK_pos (P G : Int) (h : gexGroupOK P G = true) : 0 < P := by
+  obtain ⟨_, _, c, d⟩ := (gexGroupOK_iff P G).mp h
+  omega
+
+/-- a rejected group never yields a pre-image, whatever follows -/
+theorem gexClient_rejects_bad_group (m : Magics) (p g : Nat) (X : Nat) (reply : Bytes) (k : Nat)
+    (hp : (mpintBody p).length < 2 ^ 32) (hg : (mpintBody g).length < 2 ^ 32)
+    (hbad : gexGroupOK (p : Int) (g : Int) = false) :
+    gexClient m (31 :: (mpint p ++ mpint g)) X reply k = none := by
+  unfold gexClient
+  rw [parse_int_int 31 p g hp hg]
+  simp [hbad]
+
+
+
 end XC.C29
